@@ -371,26 +371,33 @@ func HandleSendJoin(input HandleSendJoinInput) (*HandleSendJoinResponse, error) 
 	}
 
 	// validate the mxid_mapping of the event
+	var mapping *MXIDMapping
 	if input.RoomVersion == RoomVersionPseudoIDs {
-		// validate the signature first
-		mapping, err := getMXIDMapping(event)
+		mapping, err = getMXIDMapping(event)
 		if err != nil {
 			return nil, spec.BadJSON(err.Error())
 		}
+		// the mapping must be the one of the room key that sent this event
+		if mapping.UserRoomKey != event.SenderID() {
+			return nil, spec.BadJSON("The mxid_mapping is not for the sender of the join event.")
+		}
+		// validate the signature
 		if err = validateMXIDMappingSignatures(input.Context, event, *mapping, input.Verifier, verImpl); err != nil {
 			return nil, spec.Forbidden(err.Error())
-		}
-
-		// store the user room public key -> userID mapping
-		if err = input.StoreSenderIDFromPublicID(input.Context, mapping.UserRoomKey, mapping.UserID, input.RoomID); err != nil {
-			return nil, err
 		}
 	}
 
 	// Check that the sender belongs to the server that is sending us
 	// the request. By this point we've already asserted that the sender
 	// and the state key are equal so we don't need to check both.
-	sender, err := input.UserIDQuerier(input.RoomID, event.SenderID())
+	// In pseudoID rooms the validated mapping says whose room key the sender is; it is
+	// only stored once the request has passed every check.
+	var sender *spec.UserID
+	if mapping != nil {
+		sender, err = spec.NewUserID(mapping.UserID, true)
+	} else {
+		sender, err = input.UserIDQuerier(input.RoomID, event.SenderID())
+	}
 	if err != nil || sender == nil {
 		return nil, spec.Forbidden("The sender of the join is invalid")
 	} else if sender.Domain() != input.RequestOrigin {
@@ -489,6 +496,13 @@ func HandleSendJoin(input HandleSendJoinInput) (*HandleSendJoinResponse, error) 
 		if authorisedVia.Domain() != input.LocalServerName {
 			util.GetLogger(input.Context).Errorf("The authorising username %q does not belong to this server.", authorisedVia.String())
 			return nil, spec.BadJSON(fmt.Sprintf("The authorising username %q does not belong to this server.", authorisedVia.String()))
+		}
+	}
+
+	// store the user room public key -> userID mapping, now that the join is accepted
+	if mapping != nil {
+		if err = input.StoreSenderIDFromPublicID(input.Context, mapping.UserRoomKey, mapping.UserID, input.RoomID); err != nil {
+			return nil, err
 		}
 	}
 
